@@ -1169,6 +1169,11 @@ func (e *Exec) dryRun(fr *Frame, h *ssa.BasicBlock, loopOrder []*ssa.BasicBlock,
 		savedEdges[k] = v
 	}
 	savedDefers, savedRets := len(fr.defers), len(fr.rets)
+	savedParts := map[string][4]string{}
+	for k, v := range e.sliceParts {
+		savedParts[k] = v
+	}
+	defer func() { e.sliceParts = savedParts }()
 	savedWrites := e.writes
 	var writes []writeRec
 	e.writes = &writes
@@ -1470,6 +1475,8 @@ func (e *Exec) define(fr *Frame, v ssa.Value, term string) Val {
 	s := e.sortOf(v.Type())
 	sym := e.Out.Define(fr.prefix+v.Name(), s, term)
 	if s == SSlice {
+		// a symbol re-defined after a rolled-back dry run must not keep the components of its earlier definition
+		delete(e.sliceParts, sym)
 		if p, ok := e.sparts(term); ok {
 			if e.sliceParts == nil {
 				e.sliceParts = map[string][4]string{}
